@@ -16,9 +16,10 @@ CONSTANTS Prop,           \* "C05" | "C23"
 VARIABLES cfg, anets, tnet, changed
 
 Bases == [lvl : {"low", "high"}, ring : BOOLEAN, cva : BOOLEAN, tmodel : {"t", "pi"}, sn : {1, 10}, layout : {"id", "rot", "gap"},
-          swend : {"near", "far"}]
-Corner1 == [lvl |-> "low", ring |-> TRUE, cva |-> TRUE, tmodel |-> "t", sn |-> 1, layout |-> "id", swend |-> "near"]
-Corner2 == [lvl |-> "high", ring |-> FALSE, cva |-> FALSE, tmodel |-> "pi", sn |-> 10, layout |-> "gap", swend |-> "far"]
+          swend : {"near", "far"}, tsw : TswLevels]
+\* both corners carry OPEN transformer switches: the position of a transformer in its table matters only for those
+Corner1 == [lvl |-> "low", ring |-> TRUE, cva |-> TRUE, tmodel |-> "t", sn |-> 1, layout |-> "id", swend |-> "near", tsw |-> "t1lv_w1mv"]
+Corner2 == [lvl |-> "high", ring |-> FALSE, cva |-> FALSE, tmodel |-> "pi", sn |-> 10, layout |-> "gap", swend |-> "far", tsw |-> "t0hv_w0lv"]
 T(tr, tgt, n, perm, at) == [tr |-> tr, tgt |-> tgt, n |-> n, perm |-> perm, at |-> at]
 LineNames == DOMAIN Line0(TRUE)
 AddKinds == {"load", "sgen", "gen", "ext_grid", "ward", "xward", "shunt", "line", "impedance", "trafo", "bus"}
@@ -47,7 +48,9 @@ Corners == {Mk(t, b) : t \in UNION {CandsOK(tr) : tr \in Trs}, b \in IF NCorner 
 \* NRandom (candidate, base variant) pairs PER TRANSFORMATION, so that transformations with few targets are sampled as often as
 \* those with many
 MinI(a, b) == IF a <= b THEN a ELSE b
-SampleOf(tr) == LET S == CandsOK(tr) \X Bases IN RandomSubset(MinI(NRandom, Cardinality(S)), S)
+\* (drawn from the candidates x a random subset of 4 * NRandom base variants: the full product need not be enumerated)
+SampleOf(tr) == LET B == RandomSubset(MinI(4 * NRandom, Cardinality(Bases)), Bases)
+                    S == CandsOK(tr) \X B IN RandomSubset(MinI(NRandom, Cardinality(S)), S)
 Sampled == {Mk(p[1], p[2]) : p \in UNION {SampleOf(tr) : tr \in Trs}}
 Init == /\ cfg \in {c \in Corners \cup Sampled : Applicable(c)}
         /\ anets = ANetsOf(BaseNet(cfg), cfg)
@@ -75,7 +78,8 @@ CorrBusTotal == LET corr == CorrOf(W) IN
 \* explicitly re-related (Excl)
 CorrFunctional == LET cross == {m \in CorrOf(W) : m.ls = "A" /\ m.rs = "B" /\ m.kind # "total"}
                       kb == KeysB(W)  ex == Excl(W) IN
-                  /\ \A m1 \in cross, m2 \in cross : (m1 # m2 /\ m1.l \cap m2.l # {}) => (m1.kind = "ren" /\ m2.kind = "ren")
+                  \* (two distinct "eq" entries relate two distinct single keys: only pairs with another kind of entry can overlap)
+                  /\ \A m1 \in {m \in cross : m.kind # "eq"}, m2 \in cross : (m1 # m2 /\ m1.l \cap m2.l # {}) => (m1.kind = "ren" /\ m2.kind = "ren")
                   /\ \A k \in KeysA(W) \ Covered(cross, "A") : k \notin kb \/ k \in ex
 \* Sum targets partition the original: the parts of a split carry exactly the power of the original at the same bus, the
 \* expanded parallel systems are `parallel` single systems with the parameters of the original
@@ -94,7 +98,8 @@ SumPartition ==
              /\ \A n \in ps : [tnet.line[n] EXCEPT !.pos = 0, !.idx = 0] = [e EXCEPT !.par = 1, !.pos = 0, !.idx = 0]
 \* the networks are well formed: references resolve, index labels and row positions are unique per table
 WellFormed(net) == /\ \A t \in AllT : \A n \in Names(net, t) : BusesOf(net, t, n) \subseteq Names(net, "bus")
-                   /\ \A s \in Names(net, "switch") : net.switch[s].et = "l" => net.switch[s].elem \in Names(net, "line")
+                   /\ \A s \in Names(net, "switch") : /\ net.switch[s].elem \in Names(net, SwTab(net.switch[s].et))
+                                                        /\ net.switch[s].et # "b" => net.switch[s].bus \in BusesOf(net, SwTab(net.switch[s].et), net.switch[s].elem)
                    /\ \A t \in AllT : \A n1 \in Names(net, t), n2 \in Names(net, t) :
                          n1 # n2 => (net[t][n1].idx # net[t][n2].idx /\ net[t][n1].pos # net[t][n2].pos)
 NetsWellFormed == WellFormed(tnet) /\ \A k \in 1..Len(anets) : WellFormed(anets[k])
